@@ -727,3 +727,69 @@ Proof.
   destruct (apply_shape pf false a) as [|e|]; [congruence| |left; reflexivity].
   right. exists e. split; [reflexivity|]. intro rest. apply error_never_unrecoverable.
 Qed.
+
+(* ====================== the batch pre-check ====================== *)
+(* whatever isValidBatchableWrite lets into the shared batch passes the argument checks of its handler
+   and store function: so no request inside a batch fails on its arguments and aborts its neighbours *)
+Section Precheck.
+Variable vk : bytes -> bytes.
+(* the versioned hash key is not empty and at most the memcomparable encoding of the key plus the version
+   (rockredis encodeVerKey; with the local_deletion policy it is the key itself) *)
+Hypothesis vk_len : forall rk, rk <> [] -> 0 < blen (vk rk) /\ blen (vk rk) <= (blen rk / 8 + 1) * 9 + 64.
+
+Lemma pairs_store rk v fvs : check_key v = true -> pairs_ok rk fvs = true -> store_pairs_ok v fvs = true.
+Proof.
+  intro Hv. remember (length fvs) as n eqn:Hn. revert fvs Hn.
+  induction n as [n IH] using lt_wf_ind. intros fvs Hn H.
+  destruct fvs as [|f [|x rest]]; try reflexivity.
+  cbn [pairs_ok store_pairs_ok] in *. rewrite Hv.
+  destruct (check_key rk); [|discriminate].
+  destruct (check_subkey f); [|discriminate].
+  destruct (negb (max_value_size <? blen x)); [|discriminate].
+  cbn [andb] in *.
+  apply (IH (length rest)); [subst n; simpl; lia|reflexivity|assumption].
+Qed.
+
+Lemma pairs_rk rk f x rest : pairs_ok rk (f :: x :: rest) = true -> check_key rk = true.
+Proof. cbn [pairs_ok]. destruct (check_key rk); [reflexivity|discriminate]. Qed.
+
+Lemma valid_ttl_fits ts d : valid_ttl ts d = true -> (0 <? d)%Z = true /\ ttl_fits ts d = true.
+Proof. unfold valid_ttl, ttl_fits, max_uint32. intro H. split; lia. Qed.
+
+Theorem precheck_implies_store_ok : forall name args ts,
+  valid_batchable name args ts = true -> store_args_ok vk name args ts = true.
+Proof.
+  intros name args ts. unfold valid_batchable, store_args_ok.
+  destruct (Nat.ltb (alen args) 2) eqn:Hl2; [discriminate|].
+  destruct (check_key (arg args 1)) eqn:Hck; [|discriminate]. cbn [negb].
+  unfold has_table.
+  destruct (index_sep key_sep (arg args 1)) as [[|p]|] eqn:Hi; try discriminate.
+  destruct (bytes_eqb name (B "set")) eqn:Es.
+  { destruct (Nat.ltb (alen args) 3 || (max_value_size <? blen (arg args 2))) eqn:E1; [discriminate|].
+    apply orb_false_elim in E1. destruct E1 as [E1 E2]. rewrite E2.
+    replace (Nat.leb 3 (alen args)) with true by lia. cbn [andb negb].
+    destruct (Nat.ltb 3 (alen args)); [|reflexivity].
+    destruct (exnxxx_d (skipn 3 args) false 0) as [d|]; [|discriminate].
+    intro H. apply orb_prop in H. destruct H as [H|H]; [rewrite H; reflexivity|].
+    apply valid_ttl_fits in H. destruct H as [_ H]. rewrite H. apply orb_true_r. }
+  destruct (bytes_eqb name (B "setex")) eqn:Ex.
+  { destruct (negb (Nat.eqb (alen args) 4) || (max_value_size <? blen (arg args 3))) eqn:E1; [discriminate|].
+    apply orb_false_elim in E1. destruct E1 as [E1 E2]. rewrite E2.
+    replace (Nat.leb 4 (alen args)) with true by lia. cbn [andb negb].
+    destruct (parse_int (arg args 2)) as [d|]; [|discriminate].
+    intro H. apply valid_ttl_fits in H. destruct H as [H1 H2]. rewrite H1, H2. reflexivity. }
+  destruct (bytes_eqb name (B "del")); [reflexivity|].
+  destruct (bytes_eqb name (B "hmset")); [|reflexivity].
+  set (fvs := skipn 2 args). set (rk := skipn (S (S p)) (arg args 1)).
+  destruct (negb (Nat.even (length fvs)) || (max_batch_num <? N.of_nat (length fvs / 2))) eqn:E1; [discriminate|].
+  apply orb_false_elim in E1. destruct E1 as [E1 E2]. apply negb_false_iff in E1. rewrite E1, E2. cbn [andb negb].
+  destruct (max_key_size <? (blen rk / 8 + 1) * 9 + 64) eqn:E3; [discriminate|].
+  intro Hp. destruct fvs as [|f [|x rest]] eqn:Ef; [reflexivity|discriminate|].
+  pose proof (pairs_rk _ _ _ _ Hp) as Hrk. rewrite Hrk. cbn [andb].
+  apply pairs_store with (rk := rk); [|exact Hp].
+  assert (Hne : rk <> []).
+  { intro E. rewrite E in Hrk. unfold check_key, blen in Hrk. simpl in Hrk. discriminate. }
+  destruct (vk_len rk Hne) as [Hpos Hle].
+  unfold check_key. apply andb_true_intro. split; apply negb_true_iff; lia.
+Qed.
+End Precheck.
